@@ -10,6 +10,7 @@ mod frame;
 mod reader;
 mod util;
 mod writer;
+mod timing;
 mod hitobj;
 mod sections;
 mod whole;
@@ -56,6 +57,7 @@ fn dispatch_impl(toks: &[&str]) -> String {
         .or_else(|| reader::dispatch_impl(toks))
         .or_else(|| writer::dispatch_impl(toks))
         .or_else(|| codec::dispatch_impl(toks))
+        .or_else(|| timing::dispatch_impl(toks))
         .or_else(|| sections::dispatch_impl(toks))
         .or_else(|| hitobj::dispatch_impl(toks))
         .or_else(|| whole::dispatch_impl(toks))
@@ -68,6 +70,7 @@ fn dispatch_prop(toks: &[&str]) -> String {
         .or_else(|| reader::dispatch_prop(toks))
         .or_else(|| writer::dispatch_prop(toks))
         .or_else(|| codec::dispatch_prop(toks))
+        .or_else(|| timing::dispatch_prop(toks))
         .or_else(|| sections::dispatch_prop(toks))
         .or_else(|| hitobj::dispatch_prop(toks))
         .or_else(|| whole::dispatch_prop(toks))
